@@ -320,7 +320,15 @@ def parse_slot(spec, p):
         return "unreadable"
     desc = d.get("DESCRIPTION", "")
     return {"chf": chf, "eclasses": ecl, "inherit": "INHERIT" in d,
-            "payload": int(desc[6:]) if desc.startswith("CACHED") else 0, "_rdepend": d.get("RDEPEND", "")}
+            "payload": int(desc[6:]) if desc.startswith("CACHED") else 0, "_rdepend": d.get("RDEPEND", ""), "_marked": desc.startswith("CACHED")}
+
+
+def entry_sig(spec, p):
+    try:
+        st = os.stat(entry_path(spec, p))
+    except OSError:
+        return None
+    return (st.st_ino, st.st_mtime_ns, st.st_size)
 
 
 def model_slot(s):
@@ -419,6 +427,7 @@ def read_all(ctx, tree, stack, ebp, label, edits, real_daemon=False):
         case = {"label": label, "package": p, "stack": [{k: (os.path.basename(v) if k == "root" else v) for k, v in s.items()} for s in stack],
                 "before": [canon_slot(model_slot(b)) for b in before[p]], "world": worlds[p], "sourcing": fresh[p], "edits": edits}
         pkg = repo.package_class("cat", p, "1")
+        sig_before = [entry_sig(s, p) for s in stack]
         try:
             if real_daemon:
                 data = {"DESCRIPTION": pkg.description, "RDEPEND": str(pkg.rdepend), "_inherited": sorted(pkg.inherited)}
@@ -432,6 +441,14 @@ def read_all(ctx, tree, stack, ebp, label, edits, real_daemon=False):
                 impl = ["used", idx[0] if idx else -1, n]
             else:
                 impl = "regenerated"
+                if real_daemon:
+                    # entries written by the real regen operation carry no CACHED marker: whether such an entry was served is read off the
+                    # entry file instead -- a regeneration replaces the entry of a writable cache (new file), a hit leaves it untouched
+                    for i, (s_, b) in enumerate(zip(stack, before[p])):
+                        if (isinstance(b, dict) and not b["_marked"] and not s_["readonly"] and sig_before[i] is not None
+                                and entry_sig(s_, p) == sig_before[i] and b["_rdepend"] == data["RDEPEND"]):
+                            impl = ["used", i, b["payload"]]
+                            break
         except pkg_errors.MetadataException:
             impl, data = "failed", None
         except Exception as e:
